@@ -188,8 +188,10 @@ def main():
         rp = hvsrobj.Replayer(run, hvsrpy, graph, ALPHA6[:6], na, 3, 6, consts, focus={"Init"})
         hook = RoundTripHook(run, hvsrpy, na, wd)
         thook = StaleMetaHook(run, hvsrpy, wd)
-        for fenc, aenc in insts:
-            rp.replay(hvsrobj.Instance(6, fenc, aenc), state_hook=hook, trans_hook=thook)
+        for ii, (fenc, aenc) in enumerate(insts):
+            # azimuth values that stress the header grammar: non-integers, float noise, the closing value 180
+            az = None if na == 1 else ([22.5, 0.1 + 0.2], [0.0, 180.0])[ii % 2]
+            rp.replay(hvsrobj.Instance(6, fenc, aenc, azimuths=az), state_hook=hook, trans_hook=thook)
         rp.validate_pending()
         run.notes[f"replay_NA{na}"] = rp.stats
         total += hook.n
